@@ -110,6 +110,10 @@ def edits(rng, prog, n=1):
                 d["explicit"] = rng.choice([x for x in [None, "e1", "e2", "e12", "e3"] if x != d["explicit"]])
             else:
                 d["const"] += 1
+        if d["kind"] == "memento" and d.get("explicit") and kind != "explicit":
+            # user discipline: whoever edits an explicitly versioned function also changes its version string
+            d["explicit"] = d["explicit"] + "x"
+            log.append(["explicit-bump", name])
         log.append([kind, name])
     return p, log
 
